@@ -89,10 +89,32 @@ func cmdC04(seed uint64, tier, outdir string) {
 			ins = append(ins, input{"identical-docs:" + d.variant, d.text})
 		}
 	}
+	// words hyphenated across line breaks next to out-of-vocabulary words (the deferred-word path of the tokenizer)
+	for k := 0; k < 8+n/10; k++ {
+		src := ins[r.intn(len(ins))]
+		ws := strings.Split(string(src.data), " ")
+		for j := 0; j < 5 && len(ws) > 6; j++ {
+			i := 1 + r.intn(len(ws)-2)
+			w := ws[i]
+			if len(w) < 6 || strings.ContainsAny(w, "\n-&;0123456789") {
+				continue
+			}
+			a := 2 + r.intn(len(w)-4)
+			// a word no earlier call can have interned
+			fresh := "zq"
+			for v := 1000 + r.intn(1000000); v > 0; v /= 26 {
+				fresh += string(rune('a' + v%26))
+			}
+			ws[i] = fresh + " lesser " + w[:a] + "-\n" + w[a:] + " " + oovWords[r.intn(len(oovWords))]
+		}
+		ins = append(ins, input{"hyphenated+oov:" + src.name, []byte(strings.Join(ws, " "))})
+	}
 	var sink bytes.Buffer
 	for _, in := range ins {
 		orig := append([]byte{}, in.data...)
+		dict0 := base.VerifDictSize()
 		ref := fmtResults(base.Match(in.data))
+		dictGrew := base.VerifDictSize() != dict0
 		ow.printf("%s\n", ref)
 		cw.printf("%s %s\n", in.name, quoteBytes(in.data, 200))
 		verdict := ""
@@ -132,6 +154,9 @@ func cmdC04(seed uint64, tier, outdir string) {
 		check("tracing disabled again", fmtResults(base.Match(in.data)))
 		if !bytes.Equal(orig, in.data) {
 			verdict = "the caller's byte slice was modified"
+		}
+		if dictGrew {
+			verdict = fmt.Sprintf("Match changed the classifier: dictionary grew from %d words", dict0)
 		}
 		if verdict == "" {
 			nt := 0
